@@ -370,9 +370,24 @@ class Prog:
         function / lambda parameters (all numbers in this generator: the table's default) and the return types of the
         named functions that do not return a number"""
         rets = " ".join(f"({fn.name} {shape_sx(fn.ret)})" for fn in self.fns if fn.ret != F)
+        # a record update `{ r <- f = e }` keeps the type of `r` in the surface language; for the type checker it is rendered as
+        # `let tmp = r; tmp = (r.0, …, e, …); tmp` (same value; the assignment forces the updated tuple to have r's type)
+        def recupd_typed(n):
+            a = n.a
+            comps = [sx(a[4]) if i == a[2] else f"(proj (var {a[0]}) {i})" for i in range(a[3])]
+            return f"(let ru_{a[0]} (var {a[0]}) (set ru_{a[0]} (tup {' '.join(comps)}) (var ru_{a[0]})))"
+        saved = EXT_SX.get("recupd")
+        EXT_SX["recupd"] = recupd_typed
+        try:
+            body = self.sx()
+        finally:
+            if saved is None:
+                del EXT_SX["recupd"]
+            else:
+                EXT_SX["recupd"] = saved
         # parameters that the rendered source annotates `:float` (see `src`: programs with parameter-pack calls)
         binders = " ".join(f"({q} n)" for fn in self.fns for q in fn.params) if self.has_pack_call() else ""
-        return f"(aprog {self.sx()} (binders {binders}) (rets {rets}))".replace("  ", " ")
+        return f"(aprog {body} (binders {binders}) (rets {rets}))".replace("  ", " ")
 
     def has_pack_call(self):
         def walk(n):
